@@ -77,17 +77,39 @@ pub fn replay_invite_consumption(sc: &Value) -> Value {
         };
 
         // the invitation is created by its owner (A for an owned invitation, B for one that A accepts)
-        let invite_bytes = if owned_kind { a.create_invite(default_room).await.unwrap() } else { b.create_invite(None).await.unwrap() };
+        let layout = sc["other"].as_str().unwrap_or("none");
+        let twin = layout == "twin";
+        let invite_bytes = if owned_kind || twin { a.create_invite(default_room).await.unwrap() } else { b.create_invite(None).await.unwrap() };
         let invite: Invite = bincode::deserialize(&invite_bytes).unwrap();
-        if !owned_kind {
+        if !owned_kind || twin {
+            // twin: the owner accepts its own invitation, the token's list becomes [OwnedInvite(x), Invite(x)]
+            a.accept_invite(&invite_bytes).await.unwrap();
+        }
+        if layout == "dup" {
             a.accept_invite(&invite_bytes).await.unwrap();
         }
         let token = MeetingSecret::derive_token(DERIVE_STRING, &invite.invite_id);
-        let token_type = a.get_token_type(&token, &b_key).unwrap();
+        // the entry being consumed is the one of the scenario's kind
+        let token_type = a
+            .allowed_token
+            .get(&token)
+            .unwrap()
+            .iter()
+            .find(|t| matches!((t, owned_kind), (TokenType::OwnedInvite(_), true) | (TokenType::Invite(_), false)))
+            .unwrap()
+            .clone();
         let (before, before_same) = typed_as(&a, &token, &b_key, &invite.invite_id);
 
         let result = a.invite_accepted(token_type, b_peer).await;
-        let (after, after_same) = typed_as(&a, &token, &third_key, &invite.invite_id);
+        let (after, _) = typed_as(&a, &token, &third_key, &invite.invite_id);
+        // is an entry of the consumed kind for this invitation still in the table ?
+        let after_same = a.allowed_token.get(&token).map(|l| {
+            l.iter().any(|t| match t {
+                TokenType::OwnedInvite(o) => owned_kind && o.id.eq(&invite.invite_id),
+                TokenType::Invite(i) => !owned_kind && i.invite_id.eq(&invite.invite_id),
+                _ => false,
+            })
+        }).unwrap_or(false);
         json!({
             "status": "done",
             "result": if result.is_ok() { "Ok".to_string() } else { format!("Err({})", result.err().unwrap()) },
